@@ -305,6 +305,43 @@ def bootstrap_block(src):
     return 'AGENT_EXITCODE=${RPV_AGENT_EXITCODE:-1}\nfinal_state=\n' + bs[i:j + 3] + '\necho "FINAL=$final_state"\necho "EXIT=$AGENT_EXITCODE"\n'
 
 
+def collect_block(src):
+    """the lines of bootstrap_0.sh that collect the agent process and its exit code once the monitoring loop is over"""
+    bs = open(os.path.join(src, 'agent', 'bootstrap_0.sh')).read()
+    i = bs.find('# collect process and exit code')
+    j = bs.find('\n\n', i)
+    if i < 0 or j < 0:
+        raise RuntimeError('bootstrap_0.sh: exit code collection not found')
+    return bs[i:j]
+
+
+def run_collect(src, block, how):
+    """an agent process that ends with `how` (an exit code, or 'kill': SIGKILL) and no killme.signal: the exit code the
+    bootstrapper collects, and the code of the pilot job after its final block"""
+    agent = '( kill -9 $BASHPID ) &' if how == 'kill' else '( exit %d ) &' % how
+    script = 'cd "$(mktemp -d)"\nprofile_event(){ :; }\n%s\nAGENT_PID=$!\nsleep 0.2\n%s\necho "COLLECTED=$AGENT_EXITCODE"\nRPV_AGENT_EXITCODE=$AGENT_EXITCODE\n%s\n' \
+             % (agent, collect_block(src), block)
+    out = subprocess.run(['bash', '-c', script], stdout=subprocess.PIPE, stderr=subprocess.STDOUT, text=True).stdout
+    m1, m2, m3 = re.search(r'COLLECTED=(\d+)', out), re.search(r'FINAL=(\w*)', out), re.findall(r'EXIT=(\d+)', out)
+    return {'collected': int(m1.group(1)) if m1 else None, 'final': m2.group(1) if m2 else None, 'exit': int(m3[-1]) if m3 else None}
+
+
+def collect_part(ctx):
+    block = bootstrap_block(common.SRC)
+    for how in (0, 1, 3, 'kill'):
+        r = run_collect(common.SRC, block, how)
+        want = 137 if how == 'kill' else how
+        ctx.case({'agent_ends': how}, nontrivial=how != 0)
+        if r['collected'] != want:
+            ctx.fail('bootstrapper:agent-exit-code-lost', 'the agent process ended with %s: the bootstrapper collected exit code %s' % (how, r['collected']),
+                     {'kind': 'collect', 'how': how}, observed=r)
+        elif how != 0 and (r['final'] != 'FAILED' or r['exit'] in (0, None)):
+            ctx.fail('bootstrapper:crashed-agent-not-a-failed-job', 'the agent process ended with %s and wrote no final state: final state %s, job exit code %s'
+                     % (how, r['final'], r['exit']), {'kind': 'collect', 'how': how}, observed=r)
+    ctx.obligation('bootstrap_0.sh, collection of the agent process: the exit code it collects is the agent\'s (0, 1, 3, SIGKILL), a crashed agent '
+                   'without a final state is a FAILED job with a non-zero exit code', 'tie', True, '')
+
+
 FILE_VARIANTS = [None, b'', b'plain ascii output\n', 'gr\u00fc\u00dfe \u2713\n'.encode('utf8'), 'Gr\u00fc\u00dfe vom Launcher\n'.encode('latin-1'),
                  b'\x00\xff\xfe binary \x80\x81 garbage\n']
 
@@ -494,6 +531,7 @@ def run(ctx):
             ctx.fail('threads:' + bad[0], bad[1], {'kind': 'pilot_threads', 'cur': c, 'notifs': notifs, 'choices': choices}, observed=cbs)
     common.compare(ctx, 'states', ops, impl, what='PilotManager._update_pilot with notifications on concurrent threads (outcome = lock order)')
 
+    collect_part(ctx)
     # agent: all event sequences up to length 4, with and without finalize
     block = bootstrap_block(common.SRC)
     ops, impl = [], []
@@ -570,6 +608,11 @@ def run(ctx):
 def replay(ctx, data):
     rp  = rpload.load()
     inp = data['input']
+    if inp['kind'] == 'collect':
+        r = run_collect(common.SRC, bootstrap_block(common.SRC), inp['how'])
+        print(r)
+        want = 137 if inp['how'] == 'kill' else inp['how']
+        return r['collected'] == want and (inp['how'] == 0 or (r['final'] == 'FAILED' and r['exit'] not in (0, None)))
     if inp['kind'] == 'tmgr_bulk':
         out = run_tmgr_bulk(rp, inp['sched'], inp['msgs'])
         bad = tmgr_bulk_monitor(rp, inp['msgs'], out)
